@@ -43,4 +43,32 @@ def approxRankUnchecked (p : PrefetchSupport) (symbol i : Nat) : M Nat := do
   let r ← unwrap r
   return r * rate
 
+/-! The *public* prefetch entry points.  `prefetch_read_NTA(data, offset)` forms
+`data.as_ptr().wrapping_add(offset)` and hands it to the prefetch intrinsic only: no bound
+is checked and nothing is read, for every `offset`; what can fault is only the index
+arithmetic of the callers, transcribed here. -/
+
+/-- `utils::prefetch_read_NTA(data, offset)`: total for every slice and every offset -/
+def prefetchReadNTA (_len _offset : Nat) : M Unit := pure ()
+
+/-- `RSSupportPlain::prefetch(pos)` = `WTSupport::prefetch_info` of `RSQVector` -/
+def rsqPrefetchInfo (B : Nat) (r : RSQ.RSQVector) (pos : Nat) : M Unit :=
+  prefetchReadNTA (RSQ.nSuperblocks r.rs) (pos / (B * Extracted.rsqBlocksInSuperblock))
+
+/-- `WTSupport::prefetch_data` of `RSQVector`: line `pos >> 8`, and for 512-symbol blocks the
+    line before it (`if line_id > 0 { line_id - 1 } else { 0 }`: the subtraction is guarded) -/
+def rsqPrefetchData (B : Nat) (r : RSQ.RSQVector) (pos : Nat) : M Unit := do
+  let lineId := pos >>> 8
+  prefetchReadNTA r.qv.data.size lineId
+  if B == 512 then
+    let prev ← if lineId > 0 then sub lineId 1 else pure 0
+    prefetchReadNTA r.qv.data.size prev
+
+/-- `BitVector::prefetch_line(n)` -/
+def bvPrefetchLine (b : BitVector) (n : Nat) : M Unit := prefetchReadNTA b.data.size n
+
+/-- `RSWide::prefetch_info(pos)` / `prefetch_data(pos)` -/
+def rswPrefetchInfo (r : RSW.RSWide) (pos : Nat) : M Unit := prefetchReadNTA r.superblockMetadata.size (pos / 512)
+def rswPrefetchData (r : RSW.RSWide) (pos : Nat) : M Unit := bvPrefetchLine r.bv (pos / 512)
+
 end Qwt.PFS
